@@ -11,11 +11,14 @@ use std::collections::BTreeMap;
 use std::sync::Mutex;
 
 use e5_harness::*;
+
+use crate::tags::{Client, Server};
 use hydro_lang::live_collections::stream::{ExactlyOnce, NoOrder, TotalOrder};
 use hydro_lang::prelude::*;
 use hydro_lang::sim::compiled::CompiledSim;
 use hydro_lang::sim::{SimReceiver, SimSender};
 
+#[cfg(stageleft_runtime)]
 pub const META: PropMeta = PropMeta {
     id: "C34",
     quick_runs: 100_000,
@@ -35,10 +38,14 @@ pub const META: PropMeta = PropMeta {
     required_probes: &["read_after_observed_ack", "stale_read_in_non_atomic_control", "read_concurrent_with_increment"],
 };
 
+#[cfg(stageleft_runtime)]
 type Tx<T, O> = SimSender<T, O, ExactlyOnce>;
+#[cfg(stageleft_runtime)]
 type RxT<T> = SimReceiver<T, TotalOrder, ExactlyOnce>;
+#[cfg(stageleft_runtime)]
 type RxN<T> = SimReceiver<T, NoOrder, ExactlyOnce>;
 
+#[cfg(stageleft_runtime)]
 #[derive(Clone, Copy, Debug, PartialEq, Eq)]
 enum Prog {
     Atomic,
@@ -47,6 +54,7 @@ enum Prog {
     NetHop,
     Keyed,
 }
+#[cfg(stageleft_runtime)]
 impl Prog {
     const ALL: [Prog; 5] = [Prog::Atomic, Prog::NonAtomic, Prog::TwoWriters, Prog::NetHop, Prog::Keyed];
     fn name(self) -> &'static str {
@@ -60,9 +68,8 @@ impl Prog {
     }
 }
 
-pub struct Client;
-pub struct Server;
 
+#[cfg(stageleft_runtime)]
 enum Ports {
     /// inc, get, ack (ordered), response (ordered)
     Ordered(Tx<u32, TotalOrder>, Tx<u32, TotalOrder>, RxT<u32>, RxT<(u32, usize)>),
@@ -72,12 +79,14 @@ enum Ports {
     Keyed(Tx<(u32, String), TotalOrder>, Tx<(u32, String), TotalOrder>, RxN<(u32, String)>, RxN<(u32, (String, usize))>),
 }
 
+#[cfg(stageleft_runtime)]
 struct Flow {
     prog: Prog,
     compiled: CompiledSim,
     ports: Ports,
 }
 
+#[cfg(stageleft_runtime)]
 fn build(prog: Prog) -> Flow {
     let mut flow = FlowBuilder::new();
     let ports = match prog {
@@ -154,6 +163,7 @@ fn build(prog: Prog) -> Flow {
     Flow { prog, compiled, ports }
 }
 
+#[cfg(stageleft_runtime)]
 #[derive(Clone, Debug)]
 enum Op {
     /// send these increments (id, writer/key index)
@@ -165,6 +175,7 @@ enum Op {
     Read(u32, u8),
 }
 
+#[cfg(stageleft_runtime)]
 fn script(prog: Prog, run_seed: u64) -> Vec<Op> {
     let mut r = knob_rng(run_seed);
     let n_inc = 1 + below(&mut r, 6) as usize;
@@ -199,6 +210,7 @@ fn script(prog: Prog, run_seed: u64) -> Vec<Op> {
     ops
 }
 
+#[cfg(stageleft_runtime)]
 #[derive(Default, Clone, Debug)]
 struct History {
     /// per key: acknowledgements observed so far
@@ -212,10 +224,12 @@ struct History {
     lines: Vec<String>,
 }
 
+#[cfg(stageleft_runtime)]
 fn key_name(k: u8) -> String {
     format!("key{k}")
 }
 
+#[cfg(stageleft_runtime)]
 impl Flow {
     fn run(&self, bytes: &[u8], ops: &[Op]) -> (Verdict, String, History) {
         let h = Mutex::new(History::default());
@@ -348,6 +362,7 @@ impl Flow {
     }
 }
 
+#[cfg(stageleft_runtime)]
 fn run_one(f: &Flow, inp: &RunIn<'_>) -> RunOut {
     let prog = f.prog;
     let name = prog.name();
@@ -420,6 +435,7 @@ fn run_one(f: &Flow, inp: &RunIn<'_>) -> RunOut {
     out
 }
 
+#[cfg(stageleft_runtime)]
 #[test]
 fn e2e_c34() {
     let Some(cfg) = cfg_for("C34") else { return };
